@@ -275,6 +275,25 @@ def target_has_pending_compressed(
     return False
 
 
+def target_order_is_appendable(
+    target: ig.IterationGraph, output_layers: dict[str, TensorLayer]
+) -> bool:
+    """Whether the output layers are visited in an order the output can be appended in.
+
+    Output layers must be visited in storage order until only dense layers remain. Adjacent dense
+    layers of the target may be iterated in any order only if no compressed layer follows them.
+    """
+    next_layer = 0
+    node = target
+    while isinstance(node, ig.IterationNode):
+        layer = output_layers[node.index_variable]
+        if layer.layer != next_layer:
+            return all(mode == Mode.dense for mode in layer.tensor.modes[next_layer:])
+        next_layer += 1
+        node = node.next
+    return True
+
+
 def merge_assignment(
     target: ig.IterationGraph, expression: ig.IterationGraph, output_layers: dict[str, TensorLayer]
 ) -> Iterator[ig.IterationGraph]:
@@ -327,6 +346,9 @@ def to_iteration_graphs(
     }
 
     for target_graph in to_iteration_graphs_expression(assignment.target, formats, []):
+        if not target_order_is_appendable(target_graph, output_layers):
+            continue
+
         for expression_graph in to_iteration_graphs_expression(
             assignment.expression, formats, count(1)
         ):
